@@ -16,7 +16,9 @@ RULE = ('pipelines for the REAL client (hailtop.batch_client.aioclient: create_j
         'token); update job-id and group-id ranges contiguous, disjoint and in update order; batches.n_jobs / job_groups.n_jobs == '
         'number of committed jobs (no double count); scheduler counters == recomputation (C01 oracle); the ids on the client Job / '
         'JobGroup objects equal the ids of the rows carrying their attributes; and, when all client calls returned normally, the '
-        'database equals the fault-free run of the same pipeline modulo timestamps and tokens (metamorphic). '
+        'database equals the fault-free run of the same pipeline modulo timestamps and tokens (metamorphic; single-client cases). In half '
+        'of the cases a SECOND client adds its own update to the same batch while the first client submits another one, their requests '
+        'delivered in a generated order (invariants only). '
         'Non-trivial: >= 1 re-sent request that had already been applied, in a submission with >= 2 bunches or >= 2 updates.')
 ASSUMPTIONS = ['serializable at transaction granularity on minimysql; a duplicated request is delivered after the first one completed '
                '(concurrent duplicate delivery inside one transaction window is not explored)',
@@ -52,17 +54,82 @@ class Resp:
         return False
 
 
+class Turns:
+    """Delivers the requests of two concurrently submitting clients in the order given by the case (a list of client ids)."""
+
+    def __init__(self, order):
+        self.order = list(order)
+        self.waiting = {}
+        self.finished = set()
+        self.active = False
+
+    def _kick(self):
+        while True:
+            if not self.order:
+                for cid in list(self.waiting):
+                    for fut in self.waiting.pop(cid):
+                        if not fut.done():
+                            fut.set_result(None)
+                return
+            nxt = self.order[0]
+            if self.waiting.get(nxt):
+                self.order.pop(0)
+                fut = self.waiting[nxt].pop(0)      # a client may have several requests in flight (bunches go out in parallel)
+                if not self.waiting[nxt]:
+                    del self.waiting[nxt]
+                if not fut.done():
+                    fut.set_result(None)
+                if self.order:
+                    return
+                continue          # schedule exhausted: everybody still waiting goes ahead
+            if nxt in self.finished:
+                self.order.pop(0)
+                continue
+            return      # the scheduled client has not reached its next request yet
+
+    async def wait_turn(self, cid):
+        import asyncio
+        if not self.active:
+            return
+        fut = asyncio.get_event_loop().create_future()
+        self.waiting.setdefault(cid, []).append(fut)
+        self._kick()
+        await fut
+
+    def done(self, cid):
+        self.finished.add(cid)
+        # with only one client left there is nothing to interleave any more
+        self.order = []
+        self._kick()
+
+
 class Transport:
     """stand-in for hailtop.httpx.ClientSession: dispatches into HttpWorld and applies the fault plan"""
 
-    def __init__(self, w, plan):
+    def __init__(self, w, plan, turns=None, cid=0, shared=None):
         self.w = w
         self.plan = plan
+        self.turns = turns
+        self.cid = cid
+        self.shared = shared if shared is not None else self
         self.n = 0
         self.log = []
         self.resent_applied = 0
 
     async def request(self, method, url, **kw):
+        import aiohttp
+        import hailtop.httpx as hx
+        if self.turns is not None:
+            await self.turns.wait_turn(self.cid)
+        try:
+            if self.shared is not self:
+                return await self.shared._deliver(method, url, kw)
+            return await self._deliver(method, url, kw)
+        finally:
+            if self.turns is not None and self.turns.active:
+                self.turns._kick()        # the delivery is over: the next request in the schedule may go
+
+    async def _deliver(self, method, url, kw):
         import aiohttp
         import hailtop.httpx as hx
         path = url.split('batch.hail.test', 1)[1]
@@ -162,6 +229,40 @@ async def run_pipeline(case, plan, fails, info):
             except Exception as e:   # noqa
                 errors.append(f'{type(e).__name__}: {str(e)[:200]}')
                 break
+        info['two_clients'] = False
+        if case.get('other') and b.is_created and not errors:
+            # a second client adds its own update to the same batch while the first submits another one; the transport delivers
+            # their requests in the generated order
+            turns = Turns(case['other'].get('order') or [])
+            tr.turns, tr.cid = turns, 0
+            tr2 = Transport(w, tr.plan, turns=turns, cid=1, shared=tr)
+            client2 = BatchClient('bp1', 'http://batch.hail.test', Session(credentials=AnonymousCloudCredentials(), http_session=tr2),
+                                  {'Authorization': 'Bearer tok-owner'})
+            from hailtop.batch_client.aioclient import Batch as _B
+            b2 = _B(client2, b.id, attributes={'name': 'c09'}, token='fixed-batch-token')
+            jobs2 = []
+            for j in case['other']['jobs2']:
+                jobs2.append(b2.create_job('ubuntu', ['true'], attributes={'label': f'k{len(jobs2)}'}, resources={'cpu': '0.25'},
+                                           parents=[jobs2[p % len(jobs2)] for p in j.get('parents', [])] if jobs2 else []))
+            n1 = len(jobs)
+            for j in case['other']['jobs1']:
+                jobs.append(b.create_job('ubuntu', ['true'], attributes={'label': f'j{len(jobs)}'}, resources={'cpu': '0.25'},
+                                         parents=[jobs[p % len(jobs)] for p in j.get('parents', [])]))
+            size = case['other'].get('size', 2)
+
+            async def sub(bb, cid):
+                try:
+                    await bb.submit(max_bunch_bytesize=10 ** 6, max_bunch_size=size, disable_progress_bar=True)
+                except Exception as e:   # noqa
+                    errors.append(f'client{cid}: {type(e).__name__}: {str(e)[:200]}')
+                finally:
+                    turns.done(cid)
+            import asyncio
+            turns.active = True
+            await asyncio.gather(sub(b, 0), sub(b2, 1))
+            turns.active = False
+            info['two_clients'] = True
+            info['jobs2'] = jobs2
         info['requests'] = tr.log
         info['resent_applied'] = tr.resent_applied
         info['errors'] = errors
@@ -208,6 +309,14 @@ async def run_pipeline(case, plan, fails, info):
                     fails.append(('client-server-id-mismatch', 'the absolute ids the client computes equal the ids the server assigns',
                                   f'job j{idx}: client job_id {got}, server row {want}'))
                     break
+        for idx, jb in enumerate(info.get('jobs2') or []):
+            if jb._submitted:
+                want = label_to_id.get(f'k{idx}')
+                if want is not None and jb.job_id != want:
+                    fails.append(('client-server-id-mismatch', 'the absolute ids the client computes equal the ids the server assigns',
+                                  f'second client job k{idx}: client job_id {jb.job_id}, server row {want}'))
+                    break
+        info.pop('jobs2', None)
         info['n_sub_ok'] = n_sub
         return proj
     finally:
@@ -236,7 +345,7 @@ def run_case(case):
         if fails:
             return [(s, c, '[fault-free run] ' + m) for s, c, m in fails], info0, info1
         faulty = await run_pipeline(case, case['plan'], fails, info1)
-        if not fails and not info1['errors'] and not info0['errors']:
+        if not fails and not info1['errors'] and not info0['errors'] and not case.get('other'):
             if faulty != base:
                 diff = [k for k in base if base[k] != faulty.get(k)]
                 fails.append(('faulty-run-differs', 'a run with re-sent requests leaves the same database as the fault-free run',
@@ -274,6 +383,8 @@ def run_case(case):
         cls.add('client_call_raised')
     if len(case['subs']) >= 2:
         cls.add('two_plus_submits')
+    if info1.get('two_clients'):
+        cls.add('two_clients_interleaved')
     nt = bool(info1.get('resent_applied')) and ('multi_bunch_path' in cls or 'two_plus_submits' in cls)
     return nt, sorted(cls), fails
 
@@ -283,9 +394,17 @@ def strategy(enumerate_faults=False):
     job = st.fixed_dictionaries({'parents': st.lists(st.integers(0, 8), max_size=2)}, optional={'ar': st.booleans(), 'g': st.integers(0, 3)})
     sub = st.fixed_dictionaries({'jobs': st.lists(job, min_size=1, max_size=5), 'groups': st.integers(0, 2),
                                  'size': st.sampled_from([1, 2, 3, 1000])})
-    return st.builds(lambda subs, plan, nt, dr: {'subs': subs, 'plan': plan, 'n_tokens': nt, 'draws': dr},
-                     st.lists(sub, min_size=1, max_size=3), st.lists(st.sampled_from([0, 0, 1, 1, 2]), min_size=1, max_size=14),
-                     st.sampled_from([1, 2]), st.lists(st.integers(0, 7), min_size=1, max_size=3))
+    pj = st.fixed_dictionaries({'parents': st.lists(st.integers(0, 8), max_size=2)})
+    other = st.one_of(st.none(), st.fixed_dictionaries({'jobs1': st.lists(pj, min_size=1, max_size=4), 'jobs2': st.lists(pj, min_size=1, max_size=4),
+                                                        'order': st.lists(st.sampled_from([0, 1]), max_size=12), 'size': st.sampled_from([1, 2, 1000])}))
+
+    def mk(subs, plan, nt, dr, oth):
+        c = {'subs': subs, 'plan': plan, 'n_tokens': nt, 'draws': dr}
+        if oth is not None:
+            c['other'] = oth
+        return c
+    return st.builds(mk, st.lists(sub, min_size=1, max_size=3), st.lists(st.sampled_from([0, 0, 1, 1, 2]), min_size=1, max_size=14),
+                     st.sampled_from([1, 2]), st.lists(st.integers(0, 7), min_size=1, max_size=3), other)
 
 
 def plan(tier):
